@@ -22,9 +22,25 @@ static int child(size_t bits)
 	try { key.verify("some data", s.str()); } catch (std::exception &e) { }
 	return 0;
 }
+static int zero_child(unsigned long multiple)
+{
+	if (!init_libTMCG()) return 2;
+	// a fixed Blum-free toy modulus is enough: verify() only needs |m| and m (1027-bit odd number)
+	mpz_t m, y, v; mpz_init(m); mpz_init(y); mpz_init(v);
+	mpz_ui_pow_ui(m, 2, 1026); mpz_add_ui(m, m, 12345); mpz_set_ui(y, 7); // |m| = 1027 bits (verify refuses lengths that are multiples of 8)
+	std::ostringstream k; k << "pub|Eve|eve@example.org|TMCG/RABIN_1027_NIZK|" << m << "|" << y << "|nzk^0^0^|sig|ID8^00000000|" << m << "99999999|";
+	TMCG_PublicKey key;
+	if (!key.import(k.str())) return 0;
+	mpz_mul_ui(v, m, multiple);
+	std::ostringstream s; s << "sig|" << key.keyid(8) << "|" << v << "|";
+	bool r = false;
+	try { r = key.verify("some data", s.str()); } catch (std::exception &e) { }
+	return r ? 1 : 0;
+}
 int main(int argc, char **argv)
 {
 	if (argc > 2 && !strcmp(argv[1], "--child")) return child(strtoul(argv[2], NULL, 10));
+	if (argc > 2 && !strcmp(argv[1], "--zero")) return zero_child(strtoul(argv[2], NULL, 10));
 	read_trace();
 	int bad = 0;
 	size_t sizes[] = { 0, 8, 424, 2051, 8191, 8200, 8300, 10005, 16390 };
@@ -41,6 +57,23 @@ int main(int argc, char **argv)
 		if (WIFSIGNALED(st)) { printf("REPLAY-FAIL TMCG_PublicKey::verify killed by signal %d for a %zu-bit modulus\n", WTERMSIG(st), sizes[i]); bad++; }
 		else if (WEXITSTATUS(st) == 3) { printf("valgrind not available\n"); return 2; }
 		else if (WEXITSTATUS(st) != 0) { printf("REPLAY-FAIL TMCG_PublicKey::verify: memcheck reports an invalid memory access for a %zu-bit modulus (heap overflow in mpz_export)\n", sizes[i]); bad++; }
+	}
+	// a signature value that is 0 modulo m (0, m, 2m): mpz_export writes nothing for s^2 mod m = 0, the comparisons
+	// then run on an uninitialised heap buffer (whatever an earlier call left there: after a genuine verification of
+	// the same data the forged value can be accepted, depending on the allocator).  memcheck sees the uninitialised read.
+	for (int multiple = 0; multiple < 3; multiple++)
+	{
+		char num[32]; snprintf(num, sizeof(num), "%d", multiple);
+		pid_t pid = fork();
+		if (pid == 0)
+		{
+			execlp("valgrind", "valgrind", "-q", "--error-exitcode=9", "--leak-check=no", argv[0], "--zero", num, (char *)NULL);
+			_exit(3);
+		}
+		int st = 0; waitpid(pid, &st, 0);
+		if (WIFSIGNALED(st)) { printf("REPLAY-FAIL TMCG_PublicKey::verify killed by signal %d on the signature value %d*m\n", WTERMSIG(st), multiple); bad++; }
+		else if (WEXITSTATUS(st) == 9) { printf("REPLAY-FAIL TMCG_PublicKey::verify decides the signature value %d*m on UNINITIALISED heap memory (memcheck: use of uninitialised value; mpz_export writes nothing for 0)\n", multiple); bad++; }
+		else if (WEXITSTATUS(st) == 1) { printf("REPLAY-FAIL TMCG_PublicKey::verify ACCEPTS the signature value %d*m\n", multiple); bad++; }
 	}
 	if (!bad) printf("REPLAY-OK\n");
 	return bad ? 1 : 0;
